@@ -301,16 +301,23 @@ func (b *Bucket) DeleteBucket(key []byte) (err error) {
 		return errors.ErrIncompatibleValue
 	}
 
-	// Recursively delete all child buckets.
+	// Recursively delete all child buckets. Collect their names first: deleting
+	// while iterating would modify the node the ForEachBucket cursor is walking
+	// (the callback of ForEachBucket must not modify the bucket), and entries
+	// would be skipped, leaking the pages of the skipped buckets.
 	child := b.Bucket(newKey)
+	var childKeys [][]byte
 	err = child.ForEachBucket(func(k []byte) error {
-		if err := child.DeleteBucket(k); err != nil {
-			return fmt.Errorf("delete bucket: %s", err)
-		}
+		childKeys = append(childKeys, cloneBytes(k))
 		return nil
 	})
 	if err != nil {
 		return err
+	}
+	for _, k := range childKeys {
+		if err := child.DeleteBucket(k); err != nil {
+			return fmt.Errorf("delete bucket: %s", err)
+		}
 	}
 
 	// Remove cached copy.
